@@ -178,7 +178,7 @@ impl MarlinKZG10 {
                     && (polynomials@[i].hiding_bound is Some ==> rng_present),
 //@end
 
-//@fn id=marlin_pc.open file=poly-commit/src/marlin/marlin_pc/mod.rs scope="impl<E, P> PolynomialCommitment<E::ScalarField, P> for MarlinKZG10<E, P>" name=open props=C11,C04,C17,C01
+//@fn id=marlin_pc.open file=poly-commit/src/marlin/marlin_pc/mod.rs scope="impl<E, P> PolynomialCommitment<E::ScalarField, P> for MarlinKZG10<E, P>" name=open optclosures=? props=C11,C04,C17,C01,C19,C07
     fn open<'a>(ck: &CommitterKey, labeled_polynomials: Vec<&'a LabeledPolynomial>, _commitments: Vec<&'a LabeledCommitment<Commitment>>, point: &'a Fr, sponge: &mut Sponge,
                 states: Vec<&'a Randomness>, _rng: Option<&mut Rng>) -> (res: Result<kzg10::Proof, Error>)
     requires
@@ -191,7 +191,7 @@ impl MarlinKZG10 {
         res is Ok ==> (forall|i: int| 0 <= i < min(labeled_polynomials@.len(), states@.len()) ==> (#[trigger] labeled_polynomials@[i]).degree_bound.is_some() == states@[i].shifted_rand.is_some()),
         // VALUE: the proof is the KZG10 opening of the challenge-weighted sums of the polynomials and blinding polynomials, plus the
         // commitment to the challenge-weighted sum of the shifted witnesses of the degree-bounded polynomials
-        res is Ok ==> marlin_open_post(ck, labeled_polynomials@, states@, *point, old(sponge).st@, min(labeled_polynomials@.len(), states@.len()), &res->Ok_0),   // name=marlin_pc.open.proof_opens_the_challenge_weighted_sums props=C01
+        res is Ok ==> marlin_open_post(ck, labeled_polynomials@, states@, *point, old(sponge).st@, min(labeled_polynomials@.len(), states@.len()), &res->Ok_0),   // name=marlin_pc.open.proof_opens_the_challenge_weighted_sums props=C01,C19,C07
 //@body
 //@rw * /\b(p|r|shifted_w|shifted_r|shifted_r_witness) \+= \((challenge_j(?:_1)?), ([^;]*)\);/ => \1.add_assign_scaled((\2, \3));
 //@rw * /ck\.shifted_powers\(None\)/ => ck.shifted_powers(None)
